@@ -582,6 +582,106 @@ var scenarios = []scenario{
 		s.FindAll(all)
 		s.AuditPhysical("Delete of all but five documents of a huge collection")
 	}},
+	{"id-criteria-with-references", "C09 C16 C01 C12", func(s *S) {
+		// criteria on _id whose operand is a reference ("$name" string or Field(name)): nothing may take the
+		// operand for a literal id and answer with a key lookup
+		docs := []map[string]any{
+			{"_id": fixedID(1), "self": fixedID(1), "other": fixedID(2), "x": int64(1)},
+			{"_id": fixedID(2), "self": fixedID(2), "other": fixedID(2), "x": int64(2)},
+			{"_id": fixedID(3), "self": "nobody", "other": fixedID(1), "x": int64(3)},
+			{"_id": fixedID(4), "x": int64(4)},
+		}
+		s.twins(docs, "_id", "self")
+		for _, c := range []string{"plain", "idx"} {
+			for _, op := range []model.OpKind{model.OpEq, model.OpNeq, model.OpGtEq, model.OpLt} {
+				for _, arg := range []model.Operand{model.RefD("_id"), model.RefD("self"), model.RefD("other"), model.RefD("missing"), model.RefF("self"), model.RefF("_id"), L(fixedID(2)), L(fixedID(9)), L("$"), L(nil)} {
+					for _, sorted := range []bool{false, true} {
+						q := &model.Query{Coll: c, Crit: model.Cmp(op, "_id", arg)}
+						if sorted {
+							q.Sorted, q.Sort = true, []model.SortOpt{{Field: "x", Dir: -1}}
+						}
+						s.Derived(q)
+						if s.failed {
+							return
+						}
+					}
+				}
+			}
+			s.Derived(&model.Query{Coll: c, Crit: model.Cmp(model.OpEq, "self", model.RefD("_id"))})
+			s.Derived(&model.Query{Coll: c, Crit: &model.Crit{Op: model.OpIn, Field: "_id", Args: []model.Operand{model.RefD("other"), L(fixedID(4))}}})
+			s.Derived(&model.Query{Coll: c, Crit: model.Cmp(model.OpEq, "_id", model.RefD("self")), HasSkip: true, Skip: 1})
+		}
+	}},
+	{"empty-first-collection-with-index", "C15 C20 C08 C17 C02", func(s *S) {
+		// an indexed collection without documents whose keys come first in the store (nothing sorts before
+		// them): every bound, direction and window; then the same with one document
+		for _, name := range []string{"", "!", "A"} {
+			s.CreateCollection(name, nil)
+			s.CreateIndex(name, "f")
+			s.CreateIndex(name, "!")
+			for round := 0; round < 2; round++ {
+				for _, fld := range []string{"f", "!"} {
+					for _, op := range []model.OpKind{model.OpLt, model.OpLtEq, model.OpGt, model.OpGtEq, model.OpEq, model.OpNeq} {
+						for _, v := range []any{int64(5), "m", nil, false} {
+							for _, dir := range []int{0, 1, -1} {
+								q := &model.Query{Coll: name, Crit: cmpc(op, fld, v)}
+								if dir != 0 {
+									q.Sorted, q.Sort = true, []model.SortOpt{{Field: fld, Dir: dir}}
+								}
+								s.FindAll(q)
+								if s.failed {
+									return
+								}
+							}
+						}
+						s.Count(&model.Query{Coll: name, Crit: model.And(cmpc(model.OpGt, fld, int64(1)), cmpc(op, fld, int64(9)))})
+					}
+					s.FindAll(&model.Query{Coll: name, Sorted: true, Sort: []model.SortOpt{{Field: fld, Dir: -1}}, HasSkip: true, Skip: 1, HasLimit: true, Limit: 2})
+				}
+				s.Bulk(BulkDelete, &model.Query{Coll: name, Crit: cmpc(model.OpLt, "f", int64(3)), Sorted: true, Sort: []model.SortOpt{{Field: "f", Dir: -1}}}, nil)
+				if round == 0 {
+					s.Insert(name, []map[string]any{{"_id": fixedID(1), "f": int64(7), "!": "z"}}, false)
+				}
+			}
+			s.Bulk(BulkDelete, &model.Query{Coll: name}, nil)
+		}
+		s.Audit("queries on empty indexed collections at the front of the key space")
+	}},
+	{"index-ddl-beyond-2^17-documents", "C14 C06 C13", func(s *S) {
+		// bbolt only (badger refuses transactions of that size): 140000 documents, so that dropping an index or a
+		// collection removes more than 2^17 keys. In the quick tier only C14 runs it (about 12 s on one worker);
+		// the other checks stop at 70000 documents there (scenario above) and run it in the thorough tier.
+		if (!s.c.Thorough() && s.c.Prop != "C14") || s.h.Backend != BBolt {
+			return
+		}
+		const n = 140000
+		docs := make([]map[string]any, n)
+		for i := range docs {
+			docs[i] = map[string]any{"_id": fixedID(i + 1), "g": int64(i)}
+		}
+		s.CreateCollection("vast", nil)
+		s.Insert("vast", docs[:n/2], false)
+		s.Insert("vast", docs[n/2:], false)
+		s.CreateIndex("vast", "g")
+		s.DropIndex("vast", "g")
+		// every value moves, so that an entry that survived the drop no longer matches its document
+		s.Bulk(BulkUpdateFunc, &model.Query{Coll: "vast"}, &Upd{Name: "negate", Set: map[string]any{"h": int64(1)}})
+		for _, i := range []int{1, 2, 65536, 65537, 131072, 131073, 131074, n} {
+			s.UpdateById("vast", fixedID(i), &Upd{Name: "set", Set: map[string]any{"g": int64(-i)}})
+		}
+		s.CreateIndex("vast", "g")
+		s.Count(&model.Query{Coll: "vast", Crit: cmpc(model.OpGtEq, "g", int64(-n))})
+		s.FindAll(&model.Query{Coll: "vast", Sorted: true, Sort: []model.SortOpt{{Field: "g", Dir: 1}}, HasLimit: true, Limit: 20})
+		s.FindAll(&model.Query{Coll: "vast", Crit: cmpc(model.OpGtEq, "g", int64(131000)), Sorted: true, Sort: []model.SortOpt{{Field: "g", Dir: 1}}, HasLimit: true, Limit: 200})
+		s.AuditPhysical("DropIndex and CreateIndex over 140000 documents")
+		if s.failed {
+			return
+		}
+		s.DropCollection("vast")
+		s.CreateCollection("vast", nil)
+		s.Count(&model.Query{Coll: "vast"})
+		s.AuditPhysical("DropCollection of 140000 documents")
+	}},
 	{"isolation-prefix-names-shared-ids", "C13 C06", func(s *S) {
 		names := []string{"c", "cc", "c:", "coll:", "", "cx"}
 		docs := numDocs(4)
